@@ -14,6 +14,22 @@ package main
 //
 // Everything outside the accepted subset goes through fail(): an EXTRACT-PROBLEM line and an
 // identifier that does not exist in Lean, so that the generated module does not compile.
+//
+// A second generated file, Goflow/Generated/NumbersT.lean (genTranslateNumbers at the end of this file), holds
+// WriteUDecoded / DecodeUNumber / DecodeUNumberLE, GetBytes, ConvertNetFlowLegacyRecord and templateKey.
+// What the subset gained for them:
+//   uint                     -> UInt64
+//   int, per function        -> Lean Int instead of Nat (intMode): `-`, unary minus, `/` `%` as Int.tdiv / Int.tmod,
+//                               indexing / slicing / make / shifts by an int through the `…I` primitives (negative -> panic)
+//   out interface{}          -> Go.Cell; `switch t := out.(type) { case *uint16: *t = … }` -> match on the cell;
+//                               a function (…, out interface{}) error returns the cell (Go.retCell)
+//   func(msg *ProtoProducerMessage, …) without results -> Res FlowMsg
+//   for i := range x         -> len(x) once, a hidden counter, fuel len+1
+//   make([]byte, n), copy(dst, src), binary.BigEndian.PutUintNN(dst, v), x[i] = v, x[i] op= v
+//                            -> only on local slices that hold nothing but make() results and have not been
+//                               handed on before the store (checkSlices); anything else is refused (aliasing)
+//   binary.LittleEndian.UintNN, structs of other packages (fields of unsigned types), typed enum constants of pb,
+//   `0xFF << k` with a variable count (the constant takes the type of its context), `return nil` for slices
 
 import (
 	"fmt"
@@ -35,6 +51,8 @@ const (
 	tU16     gty = "uint16"
 	tU32     gty = "uint32"
 	tU64     gty = "uint64"
+	tUint    gty = "uint"        // 64 bits wide (the targets of the project are 64-bit platforms)
+	tCell    gty = "interface{}" // an `out interface{}` parameter: a pointer to an unsigned cell
 	tInt     gty = "int"
 	tBool    gty = "bool"
 	tString  gty = "string"
@@ -63,6 +81,10 @@ func goTypeOf(e ast.Expr) gty {
 		return tU32
 	case "uint64":
 		return tU64
+	case "uint":
+		return tUint
+	case "interface{}":
+		return tCell
 	case "int":
 		return tInt
 	case "bool":
@@ -88,8 +110,27 @@ func goTypeOf(e ast.Expr) gty {
 	case "ParseResult":
 		return tRes
 	}
+	if ty, ok := namedTypes[exprString(e)]; ok {
+		return ty
+	}
 	return tBad
 }
+
+// intMode: Go `int` is translated to Lean `Int` (signed arithmetic, truncated division) instead of `Nat`
+var intMode bool
+
+// named types of other packages the translated functions mention (struct types: "struct:Name")
+var namedTypes = map[string]gty{}
+
+type fieldInfo struct {
+	name string
+	ty   gty
+}
+
+var structFields = map[gty][]fieldInfo{}
+
+func isStruct(t gty) bool { return strings.HasPrefix(string(t), "struct:") }
+func isPtr(t gty) bool    { return strings.HasPrefix(string(t), "ptr:") }
 
 func leanTy(t gty) string {
 	switch t {
@@ -99,9 +140,14 @@ func leanTy(t gty) string {
 		return "UInt16"
 	case tU32:
 		return "UInt32"
-	case tU64:
+	case tU64, tUint:
 		return "UInt64"
+	case tCell:
+		return "Go.Cell"
 	case tInt:
+		if intMode {
+			return "Int"
+		}
 		return "Nat"
 	case tBool:
 		return "Bool"
@@ -126,6 +172,9 @@ func leanTy(t gty) string {
 	case tRes:
 		return "Go.ParseResult"
 	}
+	if isStruct(t) {
+		return strings.TrimPrefix(string(t), "struct:")
+	}
 	return "extract_problem_type"
 }
 
@@ -137,7 +186,7 @@ func width(t gty) int {
 		return 16
 	case tU32:
 		return 32
-	case tU64:
+	case tU64, tUint:
 		return 64
 	}
 	return 0
@@ -163,7 +212,7 @@ func elemOf(t gty) gty {
 // zero value of a type, as Lean text
 func zeroOf(t gty) (string, bool) {
 	switch t {
-	case tU8, tU16, tU32, tU64, tInt:
+	case tU8, tU16, tU32, tU64, tUint, tInt:
 		return "0", true
 	case tBool:
 		return "false", true
@@ -211,9 +260,76 @@ type varInfo struct {
 }
 
 type val struct {
-	code string
-	ty   gty
-	cst  constant.Value // set for untyped integer constants
+	code  string
+	ty    gty
+	cst   constant.Value // set for untyped integer constants
+	shift *shiftInfo     // untyped constant shifted by a non-constant count: typed by the context (see as)
+}
+
+type sliceEvent struct {
+	kind   string // "make", "assign" (anything but make), "escape", "store"
+	id     int
+	name   string
+	pos    token.Pos
+	inLoop bool
+	uncond bool
+}
+
+func (t *tr) event(kind, name string, pos token.Pos) {
+	t.sliceEv = append(t.sliceEv, sliceEvent{kind, t.bindID[name], name, pos, t.inLoop > 0, t.depth == 0 && t.inLoop == 0})
+}
+
+// checkSlices: every store must go to a binding that only ever held make() results, and no use that hands the
+// slice on may precede the store (textually, which in structured code covers execution order; loops separately)
+// unless an unconditional fresh make() lies between the two
+func (t *tr) checkSlices() bool {
+	ok := true
+	for _, st := range t.sliceEv {
+		if st.kind != "store" {
+			continue
+		}
+		made := false
+		for _, e := range t.sliceEv {
+			if e.id != st.id {
+				continue
+			}
+			switch e.kind {
+			case "make":
+				made = true
+			case "assign":
+				t.fail(nil, "store into %s, which is also assigned something other than make() (it may alias another slice)", st.name)
+				ok = false
+			case "escape":
+				if e.inLoop {
+					t.fail(nil, "store into %s, which is handed on inside a loop (aliasing)", st.name)
+					ok = false
+					continue
+				}
+				if e.pos < st.pos {
+					fresh := false
+					for _, m := range t.sliceEv {
+						if m.id == st.id && m.kind == "make" && m.uncond && m.pos > e.pos && m.pos < st.pos {
+							fresh = true
+						}
+					}
+					if !fresh {
+						t.fail(nil, "store into %s after it was handed on (aliasing)", st.name)
+						ok = false
+					}
+				}
+			}
+		}
+		if !made {
+			t.fail(nil, "store into %s, which was not created by make() here", st.name)
+			ok = false
+		}
+	}
+	return ok
+}
+
+type shiftInfo struct {
+	op  token.Token
+	cnt val
 }
 
 // what happens when control leaves a statement list (already-translated Lean lines, unindented)
@@ -239,6 +355,22 @@ type tr struct {
 	globals map[string]gty    // package-level variables the bodies may mention
 	funcs   map[string]string // translated methods callable as e.f(x): Go name -> "tuple"
 	msgKind map[string]string // FlowMessage field -> kind (u32 u64 bytes listU32 listBytes)
+
+	cellVar string // the `out interface{}` parameter of a "cell" function
+	msgVar  string // the *ProtoProducerMessage parameter of a "msg" function
+	// stores through an index are allowed into local slices that only ever hold the result of make() and that
+	// nothing else can refer to at the time of the store; checked at the end of the function over these events
+	bindID   map[string]int // current binding of a name -> id of its declaration
+	nextID   int
+	sliceEv  []sliceEvent
+	depth    int            // nesting inside branches (0: executed unconditionally)
+	noEscape int            // >0 while translating a read-only use of a slice
+	ptrOf    map[string]gty // type-switch binding -> the cell constructor it stands for
+	ptrCell  map[string]string
+	gen      bool // declaring a generated name
+	ranges   int
+	imports  map[string]string
+	consts   map[string]val // typed constants of imported packages, by qualified name
 }
 
 func (t *tr) fail(n ast.Node, f string, a ...interface{}) string {
@@ -268,8 +400,15 @@ func (t *tr) declare(n ast.Node, name string, ty gty) {
 	if _, ok := t.lookup(name); ok {
 		t.fail(n, "redeclaration / shadowing of %s is outside the subset", name)
 	}
-	if name == "fuel" || strings.HasPrefix(name, "t_") || strings.HasPrefix(name, "k_") {
+	if t.bindID != nil {
+		t.nextID++
+		t.bindID[name] = t.nextID
+	}
+	if !t.gen && (name == "fuel" || strings.HasPrefix(name, "t_") || strings.HasPrefix(name, "k_") || strings.HasPrefix(name, "rng_") || strings.HasPrefix(name, "rlen_")) {
 		t.fail(n, "identifier %s collides with a generated name", name)
+	}
+	if t.gen {
+		t.gen = false
 	}
 	t.env = append(t.env, varInfo{name, ty})
 }
@@ -309,6 +448,10 @@ func constFits(c constant.Value, ty gty) bool {
 		return false
 	}
 	if constant.Sign(c) < 0 {
+		if ty == tInt && intMode {
+			lim := constant.Shift(constant.MakeInt64(1), token.SHL, 63)
+			return constant.Compare(constant.UnaryOp(token.SUB, c, 0), token.LEQ, lim)
+		}
 		return false
 	}
 	w := width(ty)
@@ -334,11 +477,19 @@ func (t *tr) as(n ast.Node, v val, want gty) string {
 		if !constFits(v.cst, want) {
 			return t.fail(n, "constant %s overflows %s", v.cst.String(), want)
 		}
-		return "(" + v.cst.ExactString() + " : " + leanTy(want) + ")"
+		c := "(" + v.cst.ExactString() + " : " + leanTy(want) + ")"
+		if v.shift != nil {
+			// `0xFF << k` with a variable count: the constant takes the type the context gives the whole shift
+			return t.shiftApply(n, val{code: c, ty: want}, v.shift.op, v.shift.cnt).code
+		}
+		return c
 	}
 	if v.ty == tNil {
 		if want == tError {
 			return "(none : Go.Error)"
+		}
+		if elemOf(want) != tBad {
+			return "([] : " + leanTy(want) + ")"
 		}
 		return t.fail(n, "nil used as %s", want)
 	}
@@ -354,6 +505,9 @@ func (t *tr) unify(n ast.Node, a, b val) (string, string, gty) {
 	case a.ty == tBad || b.ty == tBad:
 		return a.code, b.code, tBad
 	case a.ty == tUntyped && b.ty == tUntyped:
+		if a.shift != nil || b.shift != nil {
+			return t.fail(n, "untyped constant shifted by a variable count, combined with another untyped constant"), b.code, tBad
+		}
 		return t.as(n, a, tInt), t.as(n, b, tInt), tInt
 	case a.ty == tUntyped:
 		return t.as(n, a, b.ty), b.code, b.ty
@@ -397,6 +551,13 @@ func (t *tr) expr(e ast.Expr) val {
 			return val{code: "none", ty: tNil}
 		}
 		if ty, ok := t.lookup(x.Name); ok {
+			if ty == tBytes && t.noEscape == 0 {
+				// the slice value is handed on: from here on a store through it could be seen elsewhere
+				t.event("escape", x.Name, x.Pos())
+			}
+			if isPtr(ty) {
+				return t.failV(x, "pointer %s used as a value", x.Name)
+			}
 			return val{code: leanIdent(x.Name), ty: ty}
 		}
 		if ty, ok := t.globals[x.Name]; ok {
@@ -406,12 +567,14 @@ func (t *tr) expr(e ast.Expr) val {
 	case *ast.SelectorExpr:
 		return t.selector(x)
 	case *ast.IndexExpr:
+		t.noEscape++
 		base := t.expr(x.X)
+		t.noEscape--
 		if base.ty != tBytes {
 			return t.failV(x, "index into %s (only []byte)", base.ty)
 		}
 		i := t.as(x.Index, t.expr(x.Index), tInt)
-		return val{code: t.bind("Go.idx " + base.code + " " + i), ty: tU8}
+		return val{code: t.bind("Go.idx" + iSuffix() + " " + base.code + " " + i), ty: tU8}
 	case *ast.SliceExpr:
 		if x.Slice3 || x.Max != nil {
 			return t.failV(x, "three-index slice")
@@ -424,13 +587,13 @@ func (t *tr) expr(e ast.Expr) val {
 		case x.Low != nil && x.High != nil:
 			lo := t.as(x.Low, t.expr(x.Low), tInt)
 			hi := t.as(x.High, t.expr(x.High), tInt)
-			return val{code: t.bind("Go.slice " + base.code + " " + lo + " " + hi), ty: tBytes}
+			return val{code: t.bind("Go.slice" + iSuffix() + " " + base.code + " " + lo + " " + hi), ty: tBytes}
 		case x.Low != nil:
 			lo := t.as(x.Low, t.expr(x.Low), tInt)
-			return val{code: t.bind("Go.sliceFrom " + base.code + " " + lo), ty: tBytes}
+			return val{code: t.bind("Go.sliceFrom" + iSuffix() + " " + base.code + " " + lo), ty: tBytes}
 		case x.High != nil:
 			hi := t.as(x.High, t.expr(x.High), tInt)
-			return val{code: t.bind("Go.sliceTo " + base.code + " " + hi), ty: tBytes}
+			return val{code: t.bind("Go.sliceTo" + iSuffix() + " " + base.code + " " + hi), ty: tBytes}
 		}
 		return base
 	case *ast.CompositeLit:
@@ -464,6 +627,14 @@ func (t *tr) expr(e ast.Expr) val {
 	return t.failV(e, "expression %T", e)
 }
 
+// the primitives that take an `int` index come in a Nat and an Int flavour
+func iSuffix() string {
+	if intMode {
+		return "I"
+	}
+	return ""
+}
+
 func (t *tr) selector(x *ast.SelectorExpr) val {
 	id, ok := x.X.(*ast.Ident)
 	if !ok {
@@ -471,9 +642,23 @@ func (t *tr) selector(x *ast.SelectorExpr) val {
 	}
 	ty, ok := t.lookup(id.Name)
 	if !ok {
+		if _, isImport := t.imports[id.Name]; isImport {
+			if c, ok := t.consts[id.Name+"."+x.Sel.Name]; ok {
+				return c
+			}
+			return t.failV(x, "unknown constant %s.%s", id.Name, x.Sel.Name)
+		}
 		return t.failV(x, "selector on unknown %s", id.Name)
 	}
 	base := leanIdent(id.Name)
+	if isStruct(ty) {
+		for _, f := range structFields[ty] {
+			if f.name == x.Sel.Name {
+				return val{code: base + "." + leanIdent(f.name), ty: f.ty}
+			}
+		}
+		return t.failV(x, "%s has no field %s", ty, x.Sel.Name)
+	}
 	switch ty {
 	case tMsg:
 		kind, ok := t.msgKind[x.Sel.Name]
@@ -539,6 +724,9 @@ func (t *tr) unary(x *ast.UnaryExpr) val {
 		}
 		if isUnsigned(v.ty) {
 			return val{code: "(0 - " + v.code + ")", ty: v.ty}
+		}
+		if v.ty == tInt && intMode {
+			return val{code: "(-" + v.code + ")", ty: tInt}
 		}
 	}
 	return t.failV(x, "unary %s on %s", x.Op, v.ty)
@@ -609,12 +797,26 @@ func (t *tr) binary(x *ast.BinaryExpr) val {
 			cnt = b.cst.ExactString()
 		case isUnsigned(b.ty):
 			cnt = b.code + ".toNat"
+		case b.ty == tInt && intMode:
+			// a negative count panics: the shift is a partial operation, bound in shiftApply
 		case b.ty == tInt:
-			cnt = b.code // a negative count panics in Go; the ints of the subset are not negative
+			cnt = b.code // a negative count panics in Go; the ints of the Nat flavour are not negative
 		default:
 			return t.failV(x.Y, "shift count of type %s", b.ty)
 		}
+		if a.ty == tUntyped && b.ty != tUntyped {
+			if a.shift != nil {
+				return t.failV(x, "nested shifts of an untyped constant")
+			}
+			return val{code: a.cst.ExactString(), ty: tUntyped, cst: a.cst, shift: &shiftInfo{op: x.Op, cnt: b}}
+		}
+		if b.ty == tInt && intMode {
+			return t.shiftApply(x, a, x.Op, b)
+		}
 		if a.ty == tUntyped {
+			if a.shift != nil {
+				return t.failV(x, "nested shifts of an untyped constant")
+			}
 			if b.ty != tUntyped {
 				return t.failV(x, "untyped constant shifted by a variable count")
 			}
@@ -632,6 +834,9 @@ func (t *tr) binary(x *ast.BinaryExpr) val {
 			}
 			return val{code: fmt.Sprintf("(%s%d %s %s)", f, width(a.ty), a.code, cnt), ty: a.ty}
 		}
+		if a.ty == tInt && intMode {
+			return t.failV(x, "shift of a signed int")
+		}
 		if a.ty == tInt {
 			op := "<<<"
 			if x.Op == token.SHR {
@@ -645,6 +850,9 @@ func (t *tr) binary(x *ast.BinaryExpr) val {
 		b := t.expr(x.Y)
 		if a.ty == tString && b.ty == tString && x.Op == token.ADD {
 			return val{code: "(" + a.code + " ++ " + b.code + ")", ty: tString}
+		}
+		if a.ty == tUntyped && b.ty == tUntyped && (a.shift != nil || b.shift != nil) {
+			return t.failV(x, "untyped constant shifted by a variable count, combined with another untyped constant")
 		}
 		if a.ty == tUntyped && b.ty == tUntyped {
 			if (x.Op == token.QUO || x.Op == token.REM) && constant.Sign(b.cst) == 0 {
@@ -671,7 +879,7 @@ func (t *tr) binary(x *ast.BinaryExpr) val {
 		case token.MUL:
 			op = "*"
 		case token.SUB:
-			if ty == tInt {
+			if ty == tInt && !intMode {
 				return t.failV(x, "subtraction on int (int is translated to Nat)")
 			}
 			op = "-"
@@ -685,18 +893,25 @@ func (t *tr) binary(x *ast.BinaryExpr) val {
 				if ty != tInt {
 					return t.failV(x, "%s by a non-constant divisor on %s", x.Op, ty)
 				}
-				f := "Go.divInt "
+				f := "Go.divInt" + iSuffix() + " "
 				if x.Op == token.REM {
-					f = "Go.modInt "
+					f = "Go.modInt" + iSuffix() + " "
 				}
 				return val{code: t.bind(f + ac + " " + bc), ty: tInt}
 			}
-		case token.AND:
-			op = "&&&"
-		case token.OR:
-			op = "|||"
-		case token.XOR:
-			op = "^^^"
+			if ty == tInt && intMode {
+				// Go truncates toward zero
+				f := "Int.tdiv"
+				if x.Op == token.REM {
+					f = "Int.tmod"
+				}
+				return val{code: "(" + f + " " + ac + " " + bc + ")", ty: tInt}
+			}
+		case token.AND, token.OR, token.XOR:
+			if ty == tInt && intMode {
+				return t.failV(x, "bitwise %s on a signed int", x.Op)
+			}
+			op = map[token.Token]string{token.AND: "&&&", token.OR: "|||", token.XOR: "^^^"}[x.Op]
 		case token.AND_NOT:
 			if ty == tInt {
 				return t.failV(x, "&^ on int")
@@ -706,6 +921,27 @@ func (t *tr) binary(x *ast.BinaryExpr) val {
 		return val{code: "(" + ac + " " + op + " " + bc + ")", ty: ty}
 	}
 	return t.failV(x, "binary operator %s", x.Op)
+}
+
+// shiftApply: `a << b` / `a >> b` for a typed left operand
+func (t *tr) shiftApply(n ast.Node, a val, op token.Token, b val) val {
+	f := "Go.shl"
+	if op == token.SHR {
+		f = "Go.shr"
+	}
+	if !isUnsigned(a.ty) {
+		return t.failV(n, "shift of %s by a variable count", a.ty)
+	}
+	switch {
+	case isUnsigned(b.ty):
+		return val{code: fmt.Sprintf("(%s%d %s %s.toNat)", f, width(a.ty), a.code, b.code), ty: a.ty}
+	case b.ty == tInt && intMode:
+		// a negative count panics
+		return val{code: t.bind(fmt.Sprintf("%s%dI %s %s", f, width(a.ty), a.code, b.code)), ty: a.ty}
+	case b.ty == tInt:
+		return val{code: fmt.Sprintf("(%s%d %s %s)", f, width(a.ty), a.code, b.code), ty: a.ty}
+	}
+	return t.failV(n, "shift count of type %s", b.ty)
 }
 
 // convert: uintN(x), int(x)
@@ -721,11 +957,17 @@ func (t *tr) convert(n ast.Node, to gty, v val) val {
 		return val{code: "(" + leanTy(to) + ".ofNat " + v.code + ".toNat)", ty: to}
 	case isUnsigned(v.ty) && to == tInt:
 		// uint64 -> int could go negative; narrower ones cannot
-		if v.ty == tU64 {
-			return t.failV(n, "int(uint64) may be negative")
+		if width(v.ty) == 64 {
+			return t.failV(n, "int(%s) may be negative", v.ty)
+		}
+		if intMode {
+			return val{code: "(" + v.code + ".toNat : Int)", ty: tInt}
 		}
 		return val{code: v.code + ".toNat", ty: tInt}
 	case v.ty == tInt && isUnsigned(to):
+		if intMode {
+			return t.failV(n, "%s(int) on a signed int", to)
+		}
 		return val{code: "(" + leanTy(to) + ".ofNat " + v.code + ")", ty: to}
 	}
 	return t.failV(n, "conversion %s(%s)", to, v.ty)
@@ -817,12 +1059,33 @@ func (t *tr) call(x *ast.CallExpr) val {
 		if len(x.Args) != 1 {
 			return t.failV(x, "len arity")
 		}
+		t.noEscape++
 		v := t.expr(x.Args[0])
+		t.noEscape--
 		if elemOf(v.ty) == tBad {
 			return t.failV(x, "len of %s", v.ty)
 		}
+		if intMode {
+			return val{code: "(" + v.code + ".length : Int)", ty: tInt}
+		}
 		return val{code: v.code + ".length", ty: tInt}
-	case "byte", "uint8", "uint16", "uint32", "uint64", "int":
+	case "make":
+		if len(x.Args) != 2 || goTypeOf(x.Args[0]) != tBytes {
+			return t.failV(x, "make other than make([]byte, n)")
+		}
+		n := t.as(x.Args[1], t.expr(x.Args[1]), tInt)
+		return val{code: t.bind("Go.makeBytes" + iSuffix() + " " + n), ty: tBytes}
+	case "binary.LittleEndian.Uint16", "binary.LittleEndian.Uint32", "binary.LittleEndian.Uint64":
+		if len(x.Args) != 1 {
+			return t.failV(x, "%s arity", fn)
+		}
+		t.noEscape++
+		a := t.as(x.Args[0], t.expr(x.Args[0]), tBytes)
+		t.noEscape--
+		w := strings.TrimPrefix(fn, "binary.LittleEndian.Uint")
+		rt := map[string]gty{"16": tU16, "32": tU32, "64": tU64}[w]
+		return val{code: t.bind("Go.leU" + w + " " + a), ty: rt}
+	case "byte", "uint8", "uint16", "uint32", "uint64", "uint", "int":
 		if len(x.Args) != 1 {
 			return t.failV(x, "conversion arity")
 		}
@@ -831,7 +1094,9 @@ func (t *tr) call(x *ast.CallExpr) val {
 		if len(x.Args) != 1 {
 			return t.failV(x, "%s arity", fn)
 		}
+		t.noEscape++
 		a := t.as(x.Args[0], t.expr(x.Args[0]), tBytes)
+		t.noEscape--
 		w := strings.TrimPrefix(fn, "binary.BigEndian.Uint")
 		rt := map[string]gty{"16": tU16, "32": tU32, "64": tU64}[w]
 		return val{code: t.bind("Go.beU" + w + " " + a), ty: rt}
@@ -944,6 +1209,7 @@ func (t *tr) call2(x *ast.CallExpr) (string, bool, [2]gty, bool) {
 type fnSig struct {
 	params  []gty
 	results []gty
+	kind    string
 }
 
 var translatedSigs = map[string]fnSig{}
@@ -1021,8 +1287,52 @@ func (t *tr) assignTo(lhs ast.Expr, v val, define bool) []string {
 			}
 		}
 		return []string{t.fail(l, "assignment to %s.%s", bty, l.Sel.Name)}
+	case *ast.StarExpr:
+		id, ok := l.X.(*ast.Ident)
+		if !ok || define {
+			return []string{t.fail(l, "assignment target %s", exprString(l))}
+		}
+		el, ok := t.ptrOf[id.Name]
+		if !ok {
+			return []string{t.fail(l, "store through %s, which is not a type-switch binding", id.Name)}
+		}
+		cell := t.ptrCell[id.Name]
+		return []string{"let " + leanIdent(cell) + " : Go.Cell := Go.Cell.u" + strconv.Itoa(width(el)) + " " + t.as(l, v, el)}
+	case *ast.IndexExpr:
+		if define {
+			return []string{t.fail(l, "assignment target %s", exprString(l))}
+		}
+		return t.indexStore(l, v)
 	}
 	return []string{t.fail(lhs, "assignment target %T", lhs)}
+}
+
+// storable: the named variable is a []byte created by make() that nothing else refers to
+func (t *tr) storable(n ast.Node, e ast.Expr) (string, bool) {
+	id, ok := e.(*ast.Ident)
+	if !ok {
+		t.fail(n, "store into %s", exprString(e))
+		return "", false
+	}
+	ty, _ := t.lookup(id.Name)
+	if ty != tBytes {
+		t.fail(n, "store into %s of type %s", id.Name, ty)
+		return "", false
+	}
+	t.event("store", id.Name, n.Pos())
+	return id.Name, true
+}
+
+// x[i] = v on a local slice created by make
+func (t *tr) indexStore(l *ast.IndexExpr, v val) []string {
+	name, ok := t.storable(l, l.X)
+	if !ok {
+		return []string{"(extract_problem_untranslated)"}
+	}
+	i := t.as(l.Index, t.expr(l.Index), tInt)
+	r := t.bind("Go.setIdx" + iSuffix() + " " + leanIdent(name) + " " + i + " " + t.as(l, v, tU8))
+	out := t.flush()
+	return append(out, "let "+leanIdent(name)+" : Bytes := "+r)
 }
 
 var opAssign = map[token.Token]token.Token{
@@ -1081,7 +1391,17 @@ func (t *tr) simple(s ast.Stmt) []string {
 		}
 		v := t.expr(x.Rhs[0])
 		out = append(out, t.flush()...)
-		return append(out, t.assignTo(x.Lhs[0], v, define)...)
+		out = append(out, t.assignTo(x.Lhs[0], v, define)...)
+		if id, ok := x.Lhs[0].(*ast.Ident); ok {
+			if ty, _ := t.lookup(id.Name); ty == tBytes {
+				if ce, ok := x.Rhs[0].(*ast.CallExpr); ok && exprString(ce.Fun) == "make" {
+					t.event("make", id.Name, x.Pos())
+				} else {
+					t.event("assign", id.Name, x.Pos())
+				}
+			}
+		}
+		return out
 	case *ast.DeclStmt:
 		gd, ok := x.Decl.(*ast.GenDecl)
 		if !ok || gd.Tok != token.VAR {
@@ -1124,6 +1444,38 @@ func (t *tr) simple(s ast.Stmt) []string {
 						return append(out, "let "+m+" : FlowMsg := Go.AddLayer "+m+" "+a)
 					}
 				}
+			}
+		}
+		if ce, ok := x.X.(*ast.CallExpr); ok {
+			fn := exprString(ce.Fun)
+			switch fn {
+			case "copy":
+				if len(ce.Args) != 2 {
+					return []string{t.fail(x, "copy arity")}
+				}
+				dst, ok := t.storable(x, ce.Args[0])
+				if !ok {
+					return []string{"(extract_problem_untranslated)"}
+				}
+				t.noEscape++
+				src := t.as(ce.Args[1], t.expr(ce.Args[1]), tBytes)
+				t.noEscape--
+				out = append(out, t.flush()...)
+				return append(out, "let "+leanIdent(dst)+" : Bytes := Go.copyBytes "+leanIdent(dst)+" "+src)
+			case "binary.BigEndian.PutUint16", "binary.BigEndian.PutUint32", "binary.BigEndian.PutUint64":
+				if len(ce.Args) != 2 {
+					return []string{t.fail(x, "%s arity", fn)}
+				}
+				dst, ok := t.storable(x, ce.Args[0])
+				if !ok {
+					return []string{"(extract_problem_untranslated)"}
+				}
+				w := strings.TrimPrefix(fn, "binary.BigEndian.PutUint")
+				vt := map[string]gty{"16": tU16, "32": tU32, "64": tU64}[w]
+				a := t.as(ce.Args[1], t.expr(ce.Args[1]), vt)
+				r := t.bind("Go.putU" + w + " " + leanIdent(dst) + " " + a)
+				out = append(out, t.flush()...)
+				return append(out, "let "+leanIdent(dst)+" : Bytes := "+r)
 			}
 		}
 		return []string{t.fail(x, "expression statement %s", exprString(x.X))}
@@ -1188,6 +1540,22 @@ func assignedNames(nodes []ast.Node) map[string]bool {
 				if ce, ok := x.X.(*ast.CallExpr); ok {
 					if se, ok := ce.Fun.(*ast.SelectorExpr); ok {
 						out[baseName(se.X)] = true
+					}
+					// copy(dst, …), binary.BigEndian.PutUintNN(dst, …) write into their first argument
+					if len(ce.Args) > 0 {
+						out[baseName(ce.Args[0])] = true
+					}
+				}
+			case *ast.TypeSwitchStmt:
+				// `*t = …` in an arm writes the cell the switch inspects
+				switch a := x.Assign.(type) {
+				case *ast.AssignStmt:
+					if ta, ok := a.Rhs[0].(*ast.TypeAssertExpr); ok {
+						out[baseName(ta.X)] = true
+					}
+				case *ast.ExprStmt:
+					if ta, ok := a.X.(*ast.TypeAssertExpr); ok {
+						out[baseName(ta.X)] = true
 					}
 				}
 			case *ast.RangeStmt:
@@ -1293,8 +1661,12 @@ func (t *tr) block(list []ast.Stmt, k konts) []string {
 				continue
 			}
 			return append(out, t.ifStmt(ifs, rest, k2)...)
+		case *ast.TypeSwitchStmt:
+			return append(out, t.typeSwitch(x, rest, k)...)
 		case *ast.ForStmt:
-			out = append(out, t.forStmt(x)...)
+			out = append(out, t.forStmt(x, "")...)
+		case *ast.RangeStmt:
+			out = append(out, t.rangeStmt(x)...)
 		default:
 			out = append(out, t.simple(s)...)
 		}
@@ -1311,6 +1683,38 @@ func (t *tr) ret(x *ast.ReturnStmt) []string {
 	}
 	var out []string
 	var vals []string
+	switch t.retKind {
+	case "msg":
+		if len(x.Results) != 0 {
+			return []string{t.fail(x, "return arity")}
+		}
+		return []string{".ok " + leanIdent(t.msgVar)}
+	case "cell":
+		if len(x.Results) != 1 {
+			return []string{t.fail(x, "return arity")}
+		}
+		// `return f(…, out)`: a translated function over the same cell
+		if ce, ok := x.Results[0].(*ast.CallExpr); ok {
+			if id, ok := ce.Fun.(*ast.Ident); ok {
+				if sig, ok := translatedSigs[id.Name]; ok && sig.kind == "cell" && len(sig.params) == len(ce.Args) {
+					parts := []string{leanIdent(id.Name)}
+					for i, a := range ce.Args {
+						if sig.params[i] == tCell {
+							if ai, ok := a.(*ast.Ident); !ok || ai.Name != t.cellVar {
+								return []string{t.fail(a, "cell argument other than the function's own")}
+							}
+						}
+						parts = append(parts, t.as(a, t.expr(a), sig.params[i]))
+					}
+					out = append(out, t.flush()...)
+					return append(out, strings.Join(parts, " "))
+				}
+			}
+		}
+		e := t.as(x.Results[0], t.expr(x.Results[0]), tError)
+		out = append(out, t.flush()...)
+		return append(out, "Go.retCell "+leanIdent(t.cellVar)+" "+e)
+	}
 	if len(x.Results) == 0 {
 		if t.retVars == nil {
 			return []string{t.fail(x, "bare return without named results")}
@@ -1322,9 +1726,11 @@ func (t *tr) ret(x *ast.ReturnStmt) []string {
 		if len(x.Results) != len(t.retTys) {
 			return []string{t.fail(x, "return arity")}
 		}
+		t.noEscape++ // the function ends here: no later store of this function can be seen through the result
 		for i, r := range x.Results {
 			vals = append(vals, t.as(r, t.expr(r), t.retTys[i]))
 		}
+		t.noEscape--
 		out = append(out, t.flush()...)
 	}
 	if t.retKind == "parser" {
@@ -1363,9 +1769,19 @@ func (t *tr) ifStmt(x *ast.IfStmt, rest []ast.Stmt, k konts) []string {
 
 	emit := func(thenK, elseK konts, elseBody []ast.Stmt) {
 		out = append(out, "if "+c.code+" then")
+		t.depth++
 		out = append(out, indent(t.block(x.Body.List, thenK), "  ")...)
+		t.depth--
 		out = append(out, "else")
+		// the statements after an `if … { return }` are not nested, a real else branch is
+		nested := x.Else != nil
+		if nested {
+			t.depth++
+		}
 		out = append(out, indent(t.block(elseBody, elseK), "  ")...)
+		if nested {
+			t.depth--
+		}
 	}
 
 	switch {
@@ -1466,15 +1882,159 @@ func (t *tr) switchToIf(x *ast.SwitchStmt) (*ast.IfStmt, bool) {
 	return tail.(*ast.IfStmt), true
 }
 
+// switch t := out.(type) { case *byte: *t = … } on the `out interface{}` parameter: a match on the cell
+func (t *tr) typeSwitch(x *ast.TypeSwitchStmt, rest []ast.Stmt, k konts) []string {
+	mark := len(t.env)
+	defer func() { t.env = t.env[:mark] }()
+	if x.Init != nil {
+		return []string{t.fail(x, "type switch with init statement")}
+	}
+	var ta *ast.TypeAssertExpr
+	bindName := ""
+	switch a := x.Assign.(type) {
+	case *ast.AssignStmt:
+		if len(a.Lhs) == 1 && len(a.Rhs) == 1 && a.Tok == token.DEFINE {
+			if id, ok := a.Lhs[0].(*ast.Ident); ok {
+				bindName = id.Name
+			}
+			ta, _ = a.Rhs[0].(*ast.TypeAssertExpr)
+		}
+	case *ast.ExprStmt:
+		ta, _ = a.X.(*ast.TypeAssertExpr)
+	}
+	if ta == nil || ta.Type != nil {
+		return []string{t.fail(x, "type switch guard")}
+	}
+	cid, ok := ta.X.(*ast.Ident)
+	if !ok || cid.Name != t.cellVar || t.cellVar == "" {
+		return []string{t.fail(x, "type switch on something other than the interface{} parameter")}
+	}
+	cell := leanIdent(cid.Name)
+
+	var out []string
+	kk := k
+	if len(rest) != 0 {
+		asg := assignedNames([]ast.Node{x.Body})
+		asg[cid.Name] = true
+		var params, args []string
+		for _, v := range t.env[:mark] {
+			if asg[v.name] {
+				params = append(params, "("+leanIdent(v.name)+" : "+leanTy(v.ty)+")")
+				args = append(args, leanIdent(v.name))
+			}
+		}
+		t.joins++
+		kn := fmt.Sprintf("k_%d", t.joins)
+		restLines := t.block(rest, k)
+		out = append(out, "let "+kn+" := fun "+strings.Join(params, " ")+" =>")
+		out = append(out, indent(restLines, "  ")...)
+		kk = konts{fall: []string{kn + " " + strings.Join(args, " ")}, brk: nil, cont: k.cont}
+	}
+	kk.brk = nil // `break` would leave the switch
+	out = append(out, "match "+cell+" with")
+	var deflt []ast.Stmt
+	hasDefault := false
+	seen := map[gty]bool{}
+	for _, c := range x.Body.List {
+		cc := c.(*ast.CaseClause)
+		if cc.List == nil {
+			hasDefault = true
+			deflt = cc.Body
+			continue
+		}
+		if len(cc.List) != 1 {
+			// with several types in one case the binding keeps the interface type
+			return append(out, t.fail(cc, "type switch case with several types"))
+		}
+		st, ok := cc.List[0].(*ast.StarExpr)
+		var el gty
+		if ok {
+			el = goTypeOf(st.X)
+		}
+		if el != tU8 && el != tU16 && el != tU32 && el != tU64 {
+			return append(out, t.fail(cc, "type switch case %s", exprString(cc.List[0])))
+		}
+		if seen[el] {
+			return append(out, t.fail(cc, "duplicate type switch case"))
+		}
+		seen[el] = true
+		out = append(out, fmt.Sprintf("| Go.Cell.u%d _ =>", width(el)))
+		inner := len(t.env)
+		if bindName != "" && bindName != "_" {
+			t.env = append(t.env, varInfo{bindName, gty("ptr:" + string(el))})
+			t.ptrOf[bindName] = el
+			t.ptrCell[bindName] = cid.Name
+		}
+		t.depth++
+		out = append(out, indent(t.block(cc.Body, kk), "  ")...)
+		t.depth--
+		t.env = t.env[:inner]
+		delete(t.ptrOf, bindName)
+		delete(t.ptrCell, bindName)
+	}
+	_ = hasDefault
+	out = append(out, "| _ =>")
+	t.depth++
+	out = append(out, indent(t.block(deflt, kk), "  ")...)
+	t.depth--
+	return out
+}
+
+// for i := range x { body }: x is evaluated once; the hidden counter cannot be written by the body
+func (t *tr) rangeStmt(x *ast.RangeStmt) []string {
+	if x.Value != nil {
+		return []string{t.fail(x, "range with a value variable")}
+	}
+	key := ""
+	if x.Key != nil {
+		id, ok := x.Key.(*ast.Ident)
+		if !ok || (x.Tok != token.DEFINE && id.Name != "_") {
+			return []string{t.fail(x, "range key")}
+		}
+		key = id.Name
+	}
+	t.ranges++
+	nName := fmt.Sprintf("rlen_%d", t.ranges)
+	cName := fmt.Sprintf("rng_%d", t.ranges)
+	var out []string
+	t.noEscape++
+	lv := t.expr(&ast.CallExpr{Fun: ast.NewIdent("len"), Args: []ast.Expr{x.X}})
+	t.noEscape--
+	out = append(out, t.flush()...)
+	t.gen = true
+	out = append(out, t.assignTo(ast.NewIdent(nName), lv, true)...)
+	t.gen = true
+	out = append(out, t.assignTo(ast.NewIdent(cName), val{code: "0", ty: tUntyped, cst: constant.MakeInt64(0)}, true)...)
+	t.gen = false
+	body := x.Body.List
+	if key != "" && key != "_" {
+		body = append([]ast.Stmt{&ast.AssignStmt{Lhs: []ast.Expr{ast.NewIdent(key)}, Tok: token.DEFINE, Rhs: []ast.Expr{ast.NewIdent(cName)}}}, body...)
+	}
+	fs := &ast.ForStmt{
+		For:  x.For,
+		Cond: &ast.BinaryExpr{X: ast.NewIdent(cName), Op: token.LSS, Y: ast.NewIdent(nName)},
+		Post: &ast.IncDecStmt{X: ast.NewIdent(cName), Tok: token.INC},
+		Body: &ast.BlockStmt{List: body},
+	}
+	fuel := "(" + nName + " + 1)"
+	if intMode {
+		fuel = "(" + nName + ".toNat + 1)"
+	}
+	return append(out, t.forStmt(fs, fuel)...)
+}
+
 // for init; cond; post { body }: a top-level function recursive on fuel over the variables the loop writes
-func (t *tr) forStmt(x *ast.ForStmt) []string {
+func (t *tr) forStmt(x *ast.ForStmt, fuel string) []string {
 	var out []string
 	if x.Init != nil {
 		out = append(out, t.simple(x.Init)...)
 	}
-	dataTy, _ := t.lookup("data")
-	if dataTy != tBytes {
-		return append(out, t.fail(x, "loop in a function without `data []byte` (no fuel)"))
+	if fuel == "" {
+		dataTy, _ := t.lookup("data")
+		if dataTy != tBytes || intMode {
+			return append(out, t.fail(x, "loop in a function without `data []byte` (no fuel)"))
+		}
+		fuel = "(Go.loopFuel data)"
 	}
 	asg := assignedNames([]ast.Node{x.Body, x.Post})
 	use := usedNames([]ast.Node{x.Cond, x.Body, x.Post})
@@ -1556,7 +2116,7 @@ func (t *tr) forStmt(x *ast.ForStmt) []string {
 	t.aux = append(t.aux, strings.Join(def, "\n"))
 
 	// call site
-	call := recur + " (Go.loopFuel data)"
+	call := recur + " " + fuel
 	if len(pats1) > 0 {
 		call += " " + strings.Join(pats1, " ")
 	}
@@ -1579,6 +2139,10 @@ func (t *tr) function(fd *ast.FuncDecl) string {
 	t.aux = nil
 	t.tmp, t.joins, t.loops, t.inLoop = 0, 0, 0, 0
 	t.retTys, t.retVars = nil, nil
+	t.cellVar, t.msgVar = "", ""
+	t.bindID, t.nextID, t.sliceEv, t.depth = map[string]int{}, 0, nil, 0
+	t.ptrOf, t.ptrCell = map[string]gty{}, map[string]string{}
+	t.noEscape, t.ranges, t.gen = 0, 0, false
 
 	var params []string
 	var sig fnSig
@@ -1598,6 +2162,15 @@ func (t *tr) function(fd *ast.FuncDecl) string {
 			t.declare(nm, nm.Name, ty)
 			params = append(params, "("+leanIdent(nm.Name)+" : "+leanTy(ty)+")")
 			sig.params = append(sig.params, ty)
+			switch ty {
+			case tCell:
+				if t.cellVar != "" {
+					t.fail(nm, "more than one interface{} parameter")
+				}
+				t.cellVar = nm.Name
+			case tMsg:
+				t.msgVar = nm.Name
+			}
 		}
 	}
 	var prologue []string
@@ -1627,9 +2200,19 @@ func (t *tr) function(fd *ast.FuncDecl) string {
 	sig.results = t.retTys
 	var resTy string
 	msgTy, _ := t.lookup("flowMessage")
+	fall := konts{}
 	if len(t.retTys) == 2 && t.retTys[0] == tRes && t.retTys[1] == tError && msgTy == tMsg && named {
 		t.retKind = "parser"
 		resTy = "Res PRes"
+	} else if t.cellVar != "" && len(t.retTys) == 1 && t.retTys[0] == tError && !named {
+		// the cell the `out interface{}` parameter points to travels with the result
+		t.retKind = "cell"
+		resTy = "Res Go.Cell"
+	} else if t.msgVar != "" && len(t.retTys) == 0 {
+		// a procedure on the message: the message is the result
+		t.retKind = "msg"
+		resTy = "Res FlowMsg"
+		fall.fall = []string{".ok " + leanIdent(t.msgVar)}
 	} else {
 		t.retKind = "tuple"
 		var tys []string
@@ -1640,8 +2223,12 @@ func (t *tr) function(fd *ast.FuncDecl) string {
 		if len(tys) == 0 {
 			t.fail(fd, "function without results")
 		}
+		if t.cellVar != "" {
+			t.fail(fd, "interface{} parameter in a function that does not return exactly `error`")
+		}
 	}
-	body := append(prologue, t.block(fd.Body.List, konts{})...)
+	sig.kind = t.retKind
+	body := append(prologue, t.block(fd.Body.List, fall)...)
 	translatedSigs[fd.Name.Name] = sig
 
 	var b strings.Builder
@@ -1653,6 +2240,9 @@ func (t *tr) function(fd *ast.FuncDecl) string {
 	for _, l := range indent(body, "  ") {
 		b.WriteString(l)
 		b.WriteString("\n")
+	}
+	if !t.checkSlices() {
+		fmt.Fprintf(&b, "\ndef %s_aliasing := extract_problem_untranslated\n", leanIdent(fd.Name.Name))
 	}
 	return b.String()
 }
@@ -1765,4 +2355,155 @@ func genTranslate() {
 	}
 	b.WriteString("end Goflow.Generated.T\n")
 	writeIfChanged("ParsersT.lean", b.String())
+}
+
+// ---------------------------------------------------------------------------
+// NumbersT.lean: number decoding, bit ranges, NetFlow v5 conversion, template keys
+// ---------------------------------------------------------------------------
+
+type numbersUnit struct {
+	rel     string
+	fn      string
+	intMode bool // Go int as Lean Int (signed) instead of Nat
+}
+
+var numbersUnits = []numbersUnit{
+	{"producer/proto/producer_nf.go", "WriteUDecoded", false},
+	{"producer/proto/producer_nf.go", "DecodeUNumber", false},
+	{"producer/proto/producer_nf.go", "DecodeUNumberLE", false},
+	{"producer/proto/reflect.go", "GetBytes", true},
+	{"producer/proto/producer_nflegacy.go", "ConvertNetFlowLegacyRecord", false},
+	{"decoders/netflow/templates.go", "templateKey", false},
+}
+
+// a struct of another package, with its named field types resolved inside that package's file
+func translateStruct(rel, pkg, name string, b *strings.Builder) {
+	_, f := parseFile(rel)
+	if f == nil {
+		return
+	}
+	local := map[string]gty{}
+	var st *ast.StructType
+	for _, d := range f.Decls {
+		gd, ok := d.(*ast.GenDecl)
+		if !ok || gd.Tok != token.TYPE {
+			continue
+		}
+		for _, s := range gd.Specs {
+			ts := s.(*ast.TypeSpec)
+			if x, ok := ts.Type.(*ast.StructType); ok && ts.Name.Name == name {
+				st = x
+			}
+			if id, ok := ts.Type.(*ast.Ident); ok {
+				if ty := goTypeOf(id); isUnsigned(ty) {
+					local[ts.Name.Name] = ty // e.g. `type IPAddress uint32`: conversions to the underlying type are the identity
+				}
+			}
+		}
+	}
+	if st == nil {
+		problem("translate: struct %s not found in %s", name, rel)
+		fmt.Fprintf(b, "def %s := extract_problem_missing_struct\n\n", name)
+		return
+	}
+	ty := gty("struct:" + name)
+	var fields []fieldInfo
+	fmt.Fprintf(b, "/-- %s.%s (%s) -/\nstructure %s where\n", pkg, name, rel, name)
+	for _, fl := range st.Fields.List {
+		fty := goTypeOf(fl.Type)
+		if id, ok := fl.Type.(*ast.Ident); ok && fty == tBad {
+			fty = local[id.Name]
+		}
+		if !isUnsigned(fty) {
+			problem("translate: struct %s: field type %s", name, exprString(fl.Type))
+			fmt.Fprintf(b, "  extract_problem_field : extract_problem_untranslated\n")
+			continue
+		}
+		for _, nm := range fl.Names {
+			fields = append(fields, fieldInfo{nm.Name, fty})
+			fmt.Fprintf(b, "  %s : %s\n", leanIdent(nm.Name), leanTy(fty))
+		}
+	}
+	b.WriteString("\n")
+	structFields[ty] = fields
+	namedTypes[pkg+"."+name] = ty
+}
+
+func genTranslateNumbers() {
+	var b strings.Builder
+	b.WriteString("/- GENERATED by /verif/extract (translate.go) — do not edit.\n")
+	b.WriteString("   Syntax-directed translations of WriteUDecoded / DecodeUNumber / DecodeUNumberLE (producer_nf.go),\n")
+	b.WriteString("   GetBytes (reflect.go, Go `int` as Lean `Int`), ConvertNetFlowLegacyRecord (producer_nflegacy.go) and\n")
+	b.WriteString("   templateKey (decoders/netflow/templates.go) into the primitives of Goflow/Producer/GoPrims.lean.\n")
+	b.WriteString("   Proofs/C08Trans.lean proves each definition equal to the hand-written model. -/\n")
+	b.WriteString("import Goflow.Producer.GoPrims\nset_option linter.unusedVariables false\nnamespace Goflow.Generated.TN\nopen Goflow Goflow.Producer\n\n")
+
+	translateStruct("decoders/netflowlegacy/packet.go", "netflowlegacy", "RecordsNetFlowV5", &b)
+
+	// the FlowMessage_FlowType constants (an int32 enum in Go; the message model keeps the column as u32)
+	flowTypes := map[string]string{}
+	if _, pf := parseFile("pb/flow.pb.go"); pf != nil {
+		for _, d := range pf.Decls {
+			gd, ok := d.(*ast.GenDecl)
+			if !ok || gd.Tok != token.CONST {
+				continue
+			}
+			for _, s := range gd.Specs {
+				vs := s.(*ast.ValueSpec)
+				if vs.Type == nil || exprString(vs.Type) != "FlowMessage_FlowType" || len(vs.Names) != 1 || len(vs.Values) != 1 {
+					continue
+				}
+				if bl, ok := vs.Values[0].(*ast.BasicLit); ok && bl.Kind == token.INT {
+					flowTypes[vs.Names[0].Name] = bl.Value
+				}
+			}
+		}
+	}
+
+	defer func() { intMode = false }()
+	for _, u := range numbersUnits {
+		fset, f := parseFile(u.rel)
+		if f == nil {
+			fmt.Fprintf(&b, "def %s := extract_problem_missing_file\n\n", u.fn)
+			continue
+		}
+		t := &tr{fset: fset, globals: map[string]gty{}, msgKind: map[string]string{}, imports: map[string]string{}, consts: map[string]val{}}
+		for _, c := range flowCols {
+			t.msgKind[c.goName] = c.kind
+		}
+		for _, im := range f.Imports {
+			path, _ := strconv.Unquote(im.Path.Value)
+			alias := path[strings.LastIndex(path, "/")+1:]
+			if im.Name != nil {
+				alias = im.Name.Name
+			}
+			t.imports[alias] = path
+			if strings.HasSuffix(path, "/goflow2/v2/pb") {
+				for name, lit := range flowTypes {
+					c := constant.MakeFromLiteral(lit, token.INT, 0)
+					if constFits(c, tU32) {
+						t.consts[alias+"."+name] = val{code: "(" + c.ExactString() + " : UInt32)", ty: tU32}
+					}
+				}
+			}
+		}
+		var fd *ast.FuncDecl
+		for _, d := range f.Decls {
+			if x, ok := d.(*ast.FuncDecl); ok && x.Name.Name == u.fn && x.Recv == nil && x.Body != nil {
+				fd = x
+			}
+		}
+		if fd == nil {
+			problem("translate: %s not found in %s", u.fn, u.rel)
+			fmt.Fprintf(&b, "def %s := extract_problem_missing_function\n\n", u.fn)
+			continue
+		}
+		intMode = u.intMode
+		fmt.Fprintf(&b, "/-! %s: %s -/\n", u.rel, u.fn)
+		b.WriteString(t.function(fd))
+		b.WriteString("\n")
+		intMode = false
+	}
+	b.WriteString("end Goflow.Generated.TN\n")
+	writeIfChanged("NumbersT.lean", b.String())
 }
